@@ -46,7 +46,26 @@ impl NodeProcessor for RemoveTypesProcessor {
     }
 
     fn process_function_call(&mut self, call: &mut FunctionCall) {
-        call.remove_type_instantiation_from_method();
+        let has_type_instantiation = call.remove_type_instantiation_from_method()
+            || matches!(call.get_prefix(), Prefix::TypeInstantiation(_));
+
+        if has_type_instantiation {
+            // once the types are gone, an opening parenthese left on a later line than the
+            // function it calls is an ambiguous syntax: the token loses its line
+            if let Arguments::Tuple(tuple) = call.mutate_arguments() {
+                if let Some(mut tokens) = tuple.get_tokens().cloned() {
+                    let mut opening_parenthese = Token::from_content("(");
+                    for trivia in tokens.opening_parenthese.iter_leading_trivia() {
+                        opening_parenthese.push_leading_trivia(trivia.clone());
+                    }
+                    for trivia in tokens.opening_parenthese.iter_trailing_trivia() {
+                        opening_parenthese.push_trailing_trivia(trivia.clone());
+                    }
+                    tokens.opening_parenthese = opening_parenthese;
+                    tuple.set_tokens(tokens);
+                }
+            }
+        }
     }
 
     fn process_expression(&mut self, expression: &mut Expression) {
